@@ -138,6 +138,67 @@ theorem c10_store_then_load (d : Disk) (new : Snapshot) (hw : WfSnapshot new) :
   rw [hb]
   simp [writeOps, runOps, applyOp, Disk.set, Disk.get, load, hdec]
 
+/-! ## RetainManager: which snapshot reaches the file (clause 1 at the level of `save_retain_store`) -/
+
+/-- **Invariant.**  Through any sequence of `save_snapshot` calls with retainable snapshots the
+retain file holds exactly the manager's `last_snapshot`. -/
+theorem c10_manager_file_is_last_stored (d0 : Disk) (seq : List Snapshot)
+    (hw : ∀ s ∈ seq, WfSnapshot s) :
+    (seq.foldl (fun (m : Mgr) s => (m.save s).1) ⟨none, d0⟩).Consistent := by
+  suffices h : ∀ (m : Mgr), m.Consistent →
+      (seq.foldl (fun (m : Mgr) s => (m.save s).1) m).Consistent by
+    exact h ⟨none, d0⟩ (by intro l hl; cases hl)
+  induction seq with
+  | nil => intro m hm; exact hm
+  | cons s t ih =>
+    intro m hm
+    exact ih (fun x hx => hw x (List.mem_cons_of_mem _ hx)) _
+      (Mgr.save_consistent m s hm (hw s List.mem_cons_self))
+
+/-- **Partial.**  A save reports success, and the saved snapshot is what the next load returns —
+provided the change detection does not mistake it for a different remembered snapshot
+(`saveVisible`, decidable; it fails exactly when the two are `PartialEq`-equal but not identical). -/
+theorem c10_manager_save_partial (m : Mgr) (s : Snapshot) (hc : m.Consistent) (hw : WfSnapshot s)
+    (hg : m.saveVisible s = true) :
+    (m.save s).2 = .ok () ∧ load (m.save s).1.disk = .ok s := by
+  obtain ⟨hr, hl⟩ := Mgr.save_result m s hw
+  refine ⟨hr, ?_⟩
+  have hc' := Mgr.save_consistent m s hc hw
+  rcases hl with h | ⟨l, hml, hl', he⟩
+  · exact hc' s h
+  · unfold Mgr.saveVisible at hg
+    simp only [hml, he, Bool.not_true, Bool.false_or, decide_eq_true_eq] at hg
+    subst hg
+    exact hc' l hl'
+
+/-- Without the guard the statement is false of the code: in every case the file holds a snapshot
+that `PartialEq` cannot tell from the one just saved. -/
+theorem c10_manager_save_upto_eq (m : Mgr) (s : Snapshot) (hc : m.Consistent) (hw : WfSnapshot s) :
+    (m.save s).2 = .ok () ∧
+    ∃ stored, load (m.save s).1.disk = .ok stored ∧ (stored = s ∨ snapshotEq stored s = true) := by
+  obtain ⟨hr, hl⟩ := Mgr.save_result m s hw
+  refine ⟨hr, ?_⟩
+  have hc' := Mgr.save_consistent m s hc hw
+  rcases hl with h | ⟨l, _, hl', he⟩
+  · exact ⟨s, hc' s h, .inl rfl⟩
+  · exact ⟨l, hc' l hl', .inr he⟩
+
+def exSnapLater : Snapshot := .cons [0x78] (.real 0x3F800000) .nil
+def exZero : Snapshot := .cons [0x78] (.real 0) .nil
+def exNegZero : Snapshot := .cons [0x78] (.real 0x80000000) .nil
+
+/-- **Counterexample (open finding C10-negzero-not-saved).**  A retained REAL goes from `+0.0`
+to `-0.0`: `save_snapshot` compares with `==`, finds the snapshots equal, skips the write and
+reports success; the file still holds `+0.0`. -/
+theorem c10_manager_counterexample_negzero :
+    WfSnapshot exZero ∧ WfSnapshot exNegZero ∧ exZero ≠ exNegZero ∧
+    ((Mgr.save ⟨none, ⟨none, none⟩⟩ exZero).1.save exNegZero).2 = .ok () ∧
+    load ((Mgr.save ⟨none, ⟨none, none⟩⟩ exZero).1.save exNegZero).1.disk = .ok exZero := by
+  decide
+
+/-- The guard of the partial theorem is satisfiable (first save, or a really different value). -/
+example : (Mgr.save ⟨none, ⟨none, none⟩⟩ exZero).1.saveVisible exSnapLater = true := by decide
+
 /-! ## Regression: the save routine before the repair (commit f87ef0b) was not crash atomic -/
 
 def exOld : Snapshot := .cons [0x61] (.int 1) .nil
